@@ -71,3 +71,21 @@ func Share(term string) string {
 	out.WriteString(term[prev:])
 	return "(" + strings.Join(binds, "") + out.String() + ")"
 }
+
+// ExtremeTime draws a NumericDate far away from now (Unix seconds): year 1 and
+// its neighbours, negative dates (1589, 1706, 1901, 1969), the int64-nanosecond
+// horizon (now +- 2^63 ns and twice that, 2262), 2326, 9999 / 10000, +-2^31,
+// 2^32, +-2^53. Within +-2^53 every value is exact in JSON (float64) and in
+// time.Time; past = a date before now.
+func ExtremeTime(pick func(n int) int, now int64, past bool) int64 {
+	const horizon = 9223372036 // 2^63 ns in s
+	p := []int64{-62135596801, -62135596800, -62135596799, -(1 << 53), -(1<<53 - 1), -16000000000, -12000000000, -8300000000,
+		now - 2*horizon - 1, now - 2*horizon + 1, now - horizon - 2, now - horizon - 1, now - horizon, now - horizon + 1,
+		-(1 << 31) - 1, -(1 << 31), -86400, -1, 1, 86400}
+	f := []int64{1 << 31, 1 << 32, horizon, horizon + 1, now + horizon - 1, now + horizon, now + horizon + 1, now + horizon + 2,
+		now + 2*horizon - 1, now + 2*horizon + 1, 11200000000, 253402300799, 253402300800, 1<<53 - 1, 1 << 53}
+	if past {
+		return p[pick(len(p))]
+	}
+	return f[pick(len(f))]
+}
